@@ -38,6 +38,7 @@ CURATED_TEXT = {
 'create_seq': "token A B C D; start s; s: <1 A 1>p <2 B C 2>q D;",
 'create_twice': "token A B C; start s; s: <1 A 1>p 1>q B C;",
 'create_loop_inner': "token A B C; start s; s: <1 A (B <2 C 2>y 1>x)* C;",
+'create_marker_then_whole': "token A B C D; start s; s: r D; r^: <1 A 1>x B [C >];",
 'create_opt': "token A B C D Ws; skip Ws; start s; s: x D; x: A <1 B [C 1>bc];",
 'create_loop': "token A B C D; start s; s: x D; x: <1 A (B 1>ab)* C;",
 'create_whole': "token A B C Ws; skip Ws; start s; s: x C; x^: A [B >];",
@@ -70,6 +71,9 @@ CURATED_TEXT = {
 'choice_rename': "token A B C D; start s; s: x D; x: (A B @ab / A C @ac);",
 'choice_elide': "token A B C D; start s; s: x D; x: (A B ^ / A C);",
 'choice_create': "token A B C D; start s; s: (<1 A B 1>ab / A C) D;",
+'choice_create_outer_commit': "token A B C D; start s; s: <1 A (B ~ 1>x C / B D);",
+'choice_create_outer_last': "token A B C D; start s; s: <1 A (B C / B 1>x D);",
+'choice_create_whole_last': "token A B C D; start s; s: r D; r^: A (B C / B > D);",
 'choice_nested_rule': "token A B C D; start s; s: (x B / x C) D; x: A y; y: [A];",
 'choice_pratt_alt': "token N P A; start s; s: (e A / N P A); e: e P e | N;",
 'choice_pratt_prefix': "token N P M A B; start s; s: (e A / M N P B); e: e P e | M e | N;",
@@ -106,6 +110,9 @@ NEAR_MISS_TEXT = {
 'nm_leftrec_star': "token A B; start s; s: x B; x: x* A;",
 'nm_leftrec_pred_indirect': "token A B C D; start s; s: x; x: ?1 y C | A B; y: x D;",
 'nm_leftrec_indirect_nullable': "token A B; start s; s: x B; x: y x A | B; y: [A];",
+'nm_choice_create_outer': "token A B C D; start s; s: <1 A (B 1>x C / B D);",
+'nm_choice_create_whole': "token A B C D; start s; s: r D; r^: A (B > C / B D);",
+'nm_create_whole_then_marker': "token A B C D; start s; s: r D; r^: p <1 B > C 1>x; p: A A;",
 'nm_rec_noconsume': "token A B; start s; s: x B; x: [A] x | B;",
 'nm_indirect_leftrec': "token A B; start s; s: x; x: y A | B; y: x B | A;",
 'nm_mixed_assoc': "token N P H; right H; start s; s: e; e: e (P | H) e | N;",
